@@ -936,12 +936,96 @@ wait:
 	}
 	cases += int64(concRuns)
 
+	// FAMILY "interface keys": both caches instantiated with K = any over the keys {nil, "a", 1} (a nil interface is a
+	// comparable key like any other), capacities {1, 2}, every sequence of length <= 4 over {Put k, Get k, Delete k}.
+	// Oracle: no panic; a Get returns a miss or the value of the last Put of that key not followed by a Delete of it;
+	// the size statistic never exceeds the capacity and equals the number of keys a Get still finds.
+	ifaceCases := 0
+	{
+		keys := []any{nil, "a", 1}
+		keyName := []string{"nil", "\"a\"", "1"}
+		type op struct{ kind, key int }
+		var ops []op
+		for kind := 0; kind < 3; kind++ {
+			for k := range keys {
+				ops = append(ops, op{kind, k})
+			}
+		}
+		opName := func(o op) string { return []string{"Put", "Get", "Delete"}[o.kind] + "(" + keyName[o.key] + ")" }
+		var run func(impl, capacity int, seq []op)
+		run = func(impl, capacity int, seq []op) {
+			ifaceCases++
+			var c Cache[any, int]
+			if impl == vcSieve {
+				c = NewSieve[any, int](capacity)
+			} else {
+				c = NewNonExpiringMapCache[any, int](capacity)
+			}
+			last := map[int]int{} // key index -> last value put and not deleted
+			msg := ""
+			func() {
+				defer func() {
+					if r := recover(); r != nil {
+						msg = fmt.Sprintf("panic: %v", r)
+					}
+				}()
+				for step, o := range seq {
+					switch o.kind {
+					case 0:
+						v := 100*(step+1) + o.key
+						c.Put(keys[o.key], v)
+						last[o.key] = v
+					case 1:
+						if v, ok := c.Get(keys[o.key]); ok {
+							if want, had := last[o.key]; !had || v != want {
+								msg = fmt.Sprintf("step %d Get(%s) = %d, the last value put for that key is %v (present: %v)", step+1, keyName[o.key], v, want, had)
+								return
+							}
+						}
+					case 2:
+						c.Delete(keys[o.key])
+						delete(last, o.key)
+					}
+					if size := c.Stats().Size(); size > int64(capacity) {
+						msg = fmt.Sprintf("after step %d the size statistic is %d, capacity %d", step+1, size, capacity)
+						return
+					}
+				}
+			}()
+			if msg != "" && len(failures) < 5 {
+				names := make([]string, len(seq))
+				for i, o := range seq {
+					names[i] = opName(o)
+				}
+				failures = append(failures, fmt.Sprintf("%s[any,int] capacity=%d sequence=[%s]: %s", vcImplName[impl], capacity, strings.Join(names, " "), msg))
+			}
+		}
+		var gen func(impl, capacity int, seq []op)
+		gen = func(impl, capacity int, seq []op) {
+			if len(seq) > 0 {
+				run(impl, capacity, seq)
+			}
+			if len(seq) == 4 {
+				return
+			}
+			for _, o := range ops {
+				gen(impl, capacity, append(append([]op{}, seq...), o))
+			}
+		}
+		for impl := 0; impl < 2; impl++ {
+			for _, capacity := range []int{1, 2} {
+				gen(impl, capacity, nil)
+			}
+		}
+	}
+	cases += int64(ifaceCases)
+
 	fmt.Printf("c16 cache: %d sequential cases in %.1fs on %d workers, %d concurrent runs in %.1fs, %d failing cases\n",
 		cases-int64(concRuns), seqElapsed.Seconds(), par, concRuns, time.Since(concBegan).Seconds(), failedCases)
 	if failures == nil {
 		failures = []string{}
 	}
-	bound := fmt.Sprintf("bound %s: {Sieve, NonExpiringMapCache}[int,int] x capacity {-1,0,1,2,3} x every sequence of length 0..%d over {Put,Get,Delete} x keys {1,2,3,4} (checked after every step, closed by Get(1..4)); plus Sieve capacity {2,3} x {2,4,8} goroutines x %d rounds of fixed 200-operation scripts over 4 keys (schedule-independent checks)", boundName, maxLen, rounds)
+	bound := fmt.Sprintf("bound %s: {Sieve, NonExpiringMapCache}[int,int] x capacity {-1,0,1,2,3} x every sequence of length 0..%d over {Put,Get,Delete} x keys {1,2,3,4} (checked after every step, closed by Get(1..4)); plus Sieve capacity {2,3} x {2,4,8} goroutines x %d rounds of fixed 200-operation scripts over 4 keys (schedule-independent checks); plus both caches with K = any over keys {nil, \"a\", 1}, capacities {1,2}, every sequence of length <= 4", boundName, maxLen, rounds)
 	res := map[string]any{"name": "cache", "bound": bound, "cases": cases, "exhaustive": exhaustive, "failures": failures}
 	out, _ := json.Marshal(res)
 	fmt.Println("BOUNDED-RESULT " + string(out))
